@@ -17,6 +17,7 @@ struct n {
 };
 
 #define MAXK 4096
+static struct n stale = { { NULL, NULL, NULL, 9 }, 424242 };	/* what an uninitialised node's links point at */
 static struct n *bykey[2 * MAXK + 1];
 static struct iv_avl_tree tree;
 
@@ -113,6 +114,11 @@ int main(void)
 			struct n *nn = calloc(1, sizeof(*nn));
 			int rc;
 			nn->key = k;
+			/* the API takes an uninitialised node (e.g. one that was deleted from a tree earlier and still carries its old links):
+			 * every link field holds garbage that insert must overwrite — a valid but foreign node, so that a dump or a
+			 * traversal that follows a forgotten link shows up as extra keys instead of crashing */
+			nn->an.left = nn->an.right = nn->an.parent = &stale.an;
+			nn->an.height = 77;
 			rc = iv_avl_tree_insert(&tree, &nn->an);
 			if (rc == 0) *slot(k) = nn; else free(nn);
 			printf("RES %d DUMP ", rc);
